@@ -70,6 +70,14 @@ CLAIMED = {
             "of the node-edge relation, BFS distances by iterated neighbourhoods, clustering as the exact rational "
             "2T/(k(k-1)), and the vertex / link / weight sets of projection, s-line, bipartite graphs and the "
             "encapsulation DAG, on every TLC-enumerated hypergraph under relabellings."),
+    "C09": ("§4 C09", "the specification supplies the quotient: each TLC-enumerated abstract hypergraph is realised "
+            "four times (label families x edge-id permutations / gaps / strings x shuffled node, edge and member "
+            "insertion orders); TLC compares every realisation's measures, mapped back to abstract ids, with the "
+            "label-free TLA+ definitions (neighbour averages, three clustering coefficients, densities, components, "
+            "maximal / duplicate edges) and, for Katz centrality and the assortativities, with the first realisation."),
+    "C15": ("§4 C15", "TLC evaluates the combinatorial definitions by exhaustive enumeration (SUBSET of maximal edges) "
+            "as exact rationals with a NaN marker, on every TLC-enumerated hypergraph without repeated edges x "
+            "min_size x exclude_min_size x normalize, plus the [0,1] range and the value 1 on downward-closed inputs."),
 }
 NOTE = ("Trusted: TLC, the harness projection/adapter (self-tested on every run by corrupting recorded fields), "
         "and the bounded universes listed in the evidence; outside them only random histories.")
